@@ -24,7 +24,9 @@ theorem render_formatResolved (r : Resolved) :
   · simp only [Option.map_some, Option.some.injEq]
     rw [← render_quoteIfFwd]
     split
-    · rw [render_bor, render_none]; simp [orNoneTail]
+    · split
+      · rw [render_quoted]; simp
+      · rw [render_bor, render_none]; simp [orNoneTail]
     · rfl
 
 theorem evalKind_quoted (s : Str) (h : '"' ∉ s) : evalKind (.quoted s) = some .strV := by
@@ -72,72 +74,215 @@ theorem evalKind_bor_none (a : Ann) (k : Kind) (h : evalKind a = some k) :
 theorem evalOK_of_kind {a : Ann} {k : Kind} (h : evalKind a = some k) : evalOK a = true := by
   simp [evalOK, h]
 
-/-- `_format_resolved_type` keeps an evaluable annotation evaluable unless it appends `| None` to something that
-    is a string literal (a quoted forward reference) or `None`. -/
+/-! ## one string literal: `isQuotedLit` / `unquote` -/
+
+theorem unquote_quoted (s : Str) : unquote (['"'] ++ s ++ ['"']) = s := by
+  simp [unquote]
+
+theorem isQuotedLit_quoted (s : Str) (h : '"' ∉ s) : isQuotedLit (['"'] ++ s ++ ['"']) = true := by
+  have hc : s.count '"' = 0 := List.count_eq_zero.mpr h
+  simp [isQuotedLit, startsWith, endsWith, List.count_append, hc]
+
+/-- what is between the quotes of a text that passes the test holds no quote: putting ` | None` there gives a literal again -/
+theorem isQuotedLit_inner (t : Str) (h : isQuotedLit t = true) : '"' ∉ unquote t := by
+  unfold isQuotedLit at h
+  simp only [Bool.and_eq_true, beq_iff_eq] at h
+  obtain ⟨⟨hs, he⟩, hc⟩ := h
+  cases t with
+  | nil => simp [unquote]
+  | cons c u =>
+    have hc1 : c = '"' := by
+      simp [startsWith] at hs
+      exact hs.symm
+    subst hc1
+    have hcu : u.count '"' = 1 := by
+      simp at hc
+      exact hc
+    rcases List.eq_nil_or_concat u with rfl | ⟨v, x, rfl⟩
+    · simp at hcu
+    · rw [List.concat_eq_append] at he hcu ⊢
+      have hx : x = '"' := by
+        simp [endsWith] at he
+        exact he.symm
+      subst hx
+      have hv : v.count '"' = 0 := by
+        simp [List.count_append] at hcu
+        exact hcu
+      simp only [unquote, List.drop_succ_cons, List.drop_zero, List.dropLast_concat]
+      exact List.count_eq_zero.mp hv
+
+/-! ## which expressions evaluate to a string / to `None` -/
+
+theorem orKind_kind {a b k : Kind} (h : orKind a b = some k) : k = .ty ∨ k = .alias := by
+  cases a <;> cases b <;> simp [orKind] at h <;> simp [← h]
+
+theorem foldOr_kind {k1 k2 : Kind} {ks : List Kind} {k : Kind} (h : foldOr (k1 :: k2 :: ks) = some k) :
+    k = .ty ∨ k = .alias := by
+  rcases List.eq_nil_or_concat (k2 :: ks) with he | ⟨v, x, he⟩
+  · cases he
+  · rw [he, List.concat_eq_append, ← List.cons_append, foldOr_snoc _ _ (by simp)] at h
+    cases hf : foldOr (k1 :: v) with
+    | none => rw [hf] at h; cases h
+    | some a => rw [hf] at h; exact orKind_kind h
+
+theorem unionKind_kind (l : List Kind) : unionKind l = .ty ∨ unionKind l = .alias := by
+  unfold unionKind; split <;> simp
+
+theorem subKind_kind {h : Ann} {args : List Ann} {ks : Option (List Kind)} {k : Kind}
+    (hk : subKind h args ks = some k) : k = .ty ∨ k = .alias := by
+  unfold subKind at hk
+  repeat' (split at hk)
+  all_goals (try cases hk)
+  all_goals first | exact Or.inl rfl | exact Or.inr rfl | exact unionKind_kind _
+
+theorem evalOperands_ne_nil : (a : Ann) → (ks : List Kind) → evalOperands a = some ks → ks ≠ []
+  | .name _, ks, h => by rw [evalOperands] at h; cases h; simp
+  | .quoted s, ks, h => by
+    rw [evalOperands] at h
+    split at h
+    · cases h
+    · cases h; simp
+  | .none_, ks, h => by rw [evalOperands] at h; cases h; simp
+  | .bor l r, ks, h => by
+    rw [evalOperands] at h
+    split at h
+    · rename_i a b ha hb
+      cases h
+      have := evalOperands_ne_nil l a ha
+      simp [this]
+    · cases h
+  | .sub hd args, ks, h => by
+    rw [evalOperands] at h
+    cases hs : subKind hd args (evalKinds args) with
+    | none => rw [hs] at h; cases h
+    | some k => rw [hs] at h; cases h; simp
+
+/-- only a string literal evaluates to a string … -/
+theorem evalKind_strV {a : Ann} (h : evalKind a = some .strV) : ∃ s, a = .quoted s ∧ '"' ∉ s := by
+  cases a with
+  | name s => rw [evalKind] at h; cases h
+  | quoted s =>
+    rw [evalKind] at h
+    split at h
+    · cases h
+    · rename_i hc
+      refine ⟨s, rfl, fun hm => hc (List.contains_iff_mem.mpr hm)⟩
+  | none_ => rw [evalKind] at h; cases h
+  | bor l r =>
+    rw [evalKind] at h
+    split at h
+    · rename_i x y hx hy
+      have h1 := evalOperands_ne_nil l x hx
+      have h2 := evalOperands_ne_nil r y hy
+      cases x with
+      | nil => exact absurd rfl h1
+      | cons x1 xs =>
+        cases y with
+        | nil => exact absurd rfl h2
+        | cons y1 ys =>
+          cases xs with
+          | nil => rcases foldOr_kind (k1 := x1) (k2 := y1) (ks := ys) h with h' | h' <;> cases h'
+          | cons x2 xs' =>
+            rcases foldOr_kind (k1 := x1) (k2 := x2) (ks := xs' ++ y1 :: ys) h with h' | h' <;> cases h'
+    · cases h
+  | sub hd args =>
+    rw [evalKind] at h
+    rcases subKind_kind h with h' | h' <;> cases h'
+
+/-- … and only `None` evaluates to `None` -/
+theorem evalKind_noneV {a : Ann} (h : evalKind a = some .noneV) : a = .none_ := by
+  cases a with
+  | name s => rw [evalKind] at h; cases h
+  | quoted s => rw [evalKind] at h; split at h <;> cases h
+  | none_ => rfl
+  | bor l r =>
+    rw [evalKind] at h
+    split at h
+    · rename_i x y hx hy
+      have h1 := evalOperands_ne_nil l x hx
+      have h2 := evalOperands_ne_nil r y hy
+      cases x with
+      | nil => exact absurd rfl h1
+      | cons x1 xs =>
+        cases y with
+        | nil => exact absurd rfl h2
+        | cons y1 ys =>
+          cases xs with
+          | nil => rcases foldOr_kind (k1 := x1) (k2 := y1) (ks := ys) h with h' | h' <;> cases h'
+          | cons x2 xs' =>
+            rcases foldOr_kind (k1 := x1) (k2 := x2) (ks := xs' ++ y1 :: ys) h with h' | h' <;> cases h'
+    · cases h
+  | sub hd args =>
+    rw [evalKind] at h
+    rcases subKind_kind h with h' | h' <;> cases h'
+
+/-! ## the optional marker -/
+
+/-- The optional marker of `_format_resolved_type` on anything that evaluates and is not `None`: inside the quotes of a string
+    literal (a string literal again), `… | None` after a class / generic alias / typing object. -/
+theorem optMark_evaluable (a0 : Ann) (k0 : Kind) (h0 : evalKind a0 = some k0) (hn : k0 ≠ .noneV) :
+    evalOK (if isQuotedLit (render a0) = true then .quoted (unquote (render a0) ++ orNoneTail) else .bor a0 .none_) = true := by
+  split
+  · rename_i hq
+    apply evalOK_of_kind (evalKind_quoted _ _)
+    intro hm
+    rcases List.mem_append.mp hm with h | h
+    · exact isQuotedLit_inner _ hq h
+    · revert h; decide
+  · rename_i hq
+    cases k0 with
+    | ty => exact evalOK_of_kind (by rw [evalKind_bor_none _ _ h0]; rfl)
+    | alias => exact evalOK_of_kind (by rw [evalKind_bor_none _ _ h0]; rfl)
+    | noneV => exact absurd rfl hn
+    | strV =>
+      obtain ⟨s, rfl, hs⟩ := evalKind_strV h0
+      rw [render_quoted] at hq
+      exact absurd (isQuotedLit_quoted s hs) hq
+
+/-- `_format_resolved_type` keeps an evaluable annotation evaluable unless it appends `| None` to `None` itself
+    (F1 repaired: the marker of a quoted forward reference goes inside the quotes). -/
 theorem format_evaluable (r : Resolved) (k : Kind) (hk : evalKind r.ty = some k)
     (hq : r.isForwardRef = true → '"' ∉ render r.ty)
-    (hc : r.isOptional = true → r.isForwardRef = false ∧ (k = .ty ∨ k = .alias))
+    (hc : r.isOptional = true → ¬ (r.isForwardRef = false ∧ k = .noneV))
     (a : Ann) (ha : formatResolved r = some a) : evalOK a = true := by
+  -- the (possibly quoted) base evaluates, and to `None` only when it is the unquoted `None`
+  have hbase : ∃ k0, evalKind (quoteIfFwd r.ty r.isForwardRef) = some k0 ∧
+      (k0 = .noneV → r.isForwardRef = false ∧ k = .noneV) := by
+    unfold quoteIfFwd
+    split
+    · rename_i h1
+      simp only [Bool.and_eq_true] at h1
+      exact ⟨.strV, evalKind_quoted _ (hq h1.1), fun h => by cases h⟩
+    · rename_i h1
+      refine ⟨k, hk, fun hkn => ⟨?_, hkn⟩⟩
+      subst hkn
+      have hty := evalKind_noneV hk
+      cases hf : r.isForwardRef with
+      | false => rfl
+      | true =>
+        exfalso; apply h1
+        rw [hf, hty, render_none]; decide
+  obtain ⟨k0, hk0, hk0n⟩ := hbase
   unfold formatResolved at ha
   split at ha
   · cases ha
   · simp only [Option.some.injEq] at ha
-    cases hopt : r.isOptional with
-    | false =>
-      simp only [hopt, Bool.false_and, Bool.false_eq_true, if_false] at ha
-      subst ha
-      unfold quoteIfFwd
-      split
-      · rename_i h1
-        simp only [Bool.and_eq_true] at h1
-        exact evalOK_of_kind (evalKind_quoted _ (hq h1.1))
-      · exact evalOK_of_kind hk
-    | true =>
-      obtain ⟨hf, hk'⟩ := hc hopt
-      have hqa : quoteIfFwd r.ty r.isForwardRef = r.ty := by simp [quoteIfFwd, hf]
-      rw [hqa] at ha
-      split at ha
-      · subst ha
-        rcases hk' with rfl | rfl
-        · exact evalOK_of_kind (by rw [evalKind_bor_none _ _ hk]; rfl)
-        · exact evalOK_of_kind (by rw [evalKind_bor_none _ _ hk]; rfl)
-      · subst ha; exact evalOK_of_kind hk
+    subst ha
+    split
+    · rename_i hcond
+      simp only [Bool.and_eq_true] at hcond
+      exact optMark_evaluable _ k0 hk0 (fun h => hc hcond.1 (hk0n h))
+    · exact evalOK_of_kind hk0
 
-/-- … and it breaks it whenever it DOES append `| None` to a string literal or to `None`. -/
-theorem format_not_evaluable (r : Resolved) (k : Kind) (hk : evalKind r.ty = some k)
-    (hq : r.isForwardRef = true → '"' ∉ render r.ty)
-    (hopt : r.isOptional = true)
-    (hbad : r.isForwardRef = true ∨ k = .strV ∨ k = .noneV)
-    (hpre : startsWith (render r.ty) optionalPrefix = false)
-    (hsuf : endsWith (render (quoteIfFwd r.ty r.isForwardRef)) orNoneSuffix = false) :
+/-- … and it breaks it whenever it DOES append `| None` to `None`. -/
+theorem format_not_evaluable (r : Resolved) (hk : evalKind r.ty = some .noneV)
+    (hopt : r.isOptional = true) (hf : r.isForwardRef = false) :
     ∃ a, formatResolved r = some a ∧ evalOK a = false := by
-  refine ⟨.bor (quoteIfFwd r.ty r.isForwardRef) .none_, ?_, ?_⟩
-  · unfold formatResolved
-    simp [hpre, hopt, hsuf]
-  · have hkq : ∃ k', evalKind (quoteIfFwd r.ty r.isForwardRef) = some k' ∧ (k' = .strV ∨ k' = .noneV) := by
-      unfold quoteIfFwd
-      split
-      · rename_i h1
-        simp only [Bool.and_eq_true] at h1
-        exact ⟨.strV, evalKind_quoted _ (hq h1.1), Or.inl rfl⟩
-      · rename_i h1
-        rcases hbad with hf | hs | hn
-        · -- forward ref whose text already starts with a quote: it can only be a string literal or fail
-          have hst : startsWith (render r.ty) ['"'] = true := by
-            simp only [hf, Bool.true_and, Bool.not_eq_true', Bool.not_eq_false] at h1
-            exact h1
-          have hmem : '"' ∈ render r.ty := by
-            unfold startsWith at hst
-            rw [List.isPrefixOf_iff_prefix] at hst
-            obtain ⟨t, ht⟩ := hst
-            rw [← ht]; simp
-          exact absurd hmem (hq hf)
-        · exact ⟨k, hk, Or.inl hs⟩
-        · exact ⟨k, hk, Or.inr hn⟩
-    obtain ⟨k', hk1, hk2⟩ := hkq
-    unfold evalOK
-    rw [evalKind_bor_none _ _ hk1]
-    rcases hk2 with rfl | rfl <;> rfl
+  obtain ⟨ty, o, f⟩ := r
+  simp only at hk hopt hf
+  have hty := evalKind_noneV hk
+  subst hty hopt hf
+  exact ⟨.bor .none_ .none_, by rfl, by decide +kernel⟩
 
 /-! ## arrays -/
 
@@ -171,6 +316,6 @@ theorem listOf_evaluable (item : Resolved) (k : Kind) (hk : evalKind item.ty = s
   obtain ⟨k', hk'⟩ := hx
   refine format_evaluable (listOf item required) .alias (evalKind_list _ _ hk') ?_ ?_ a ha
   · intro h; simp [listOf] at h
-  · intro _; exact ⟨rfl, Or.inr rfl⟩
+  · intro _ h; cases h.2
 
 end Pog.Annot
